@@ -1,4 +1,5 @@
 import JL.Generated.Fns
+import JL.Lemmas.TieAuto
 import JL.Tie.to_primitive
 import JL.Tie.str_to_number
 /-! tie: `to_number`, as translated from the crate's current source, is the model's function - for every input -/
@@ -6,8 +7,7 @@ namespace JL.Tie
 open JL
 
 theorem to_number (v : Json) : Gen.to_number v = JsOp.toNumber v := by
-  unfold Gen.to_number JsOp.toNumber
-  rw [to_primitive]
-  cases JsOp.toPrimitive v <;> simp [str_to_number]
+  tie_close [Gen.to_number, JsOp.toNumber, JsOp.toPrimitive, to_primitive, to_primitive_number, to_string, str_to_number]
+    splitting JsOp.toPrimitiveNumber
 
 end JL.Tie
